@@ -277,6 +277,16 @@ func runHasD2Shape(run *tbRun, prog *SX, seed uint64) bool {
 	return false
 }
 
+// did any executed test case signal a failure from inside a Custom generator function
+func runSignalInCustom(run *tbRun) bool {
+	for _, inv := range run.in.invs {
+		if inv.signalInCustom {
+			return true
+		}
+	}
+	return false
+}
+
 func reportedSeed(verdict string) uint64 {
 	if i := strings.LastIndex(verdict, ":seed="); i >= 0 {
 		var s uint64
@@ -372,6 +382,7 @@ func init() {
 				p := flagsStr(fl)
 				p["prog"] = prog.String()
 				p["d2shape"] = fmt.Sprint(runHasD2Shape(run, prog, reportedSeed(run.verdict)))
+				p["signal_in_custom"] = fmt.Sprint(runSignalInCustom(run))
 				m.violate(violation{"C01", "reported", what, p})
 			}
 		}
